@@ -72,3 +72,19 @@ Lemma node_get_delay_draws_src : forall k, Node_get_delay_draws k = (match k wit
 Proof. intros [| |]; reflexivity. Qed.
 Lemma edge_get_delay_draws_src : forall k, Edge_get_delay_draws k = (match k with DConst => 0 | _ => 1 end)%nat.
 Proof. intros [| |]; reflexivity. Qed.
+
+(* the queries (can_put / can_get / occupancy / the two list accessors) and the statistics refreshes of the Buffer and Fleet
+   edges only OBSERVE the store: no attribute of the store other than the four level-statistics fields is assigned, no method of the
+   store other than its level-statistics update is called, and neither a list of the store nor a local name bound to one is
+   updated in place.  The model's queries are functions of the store state; a refresh at any point of a history changes nothing
+   the model keeps (op FINAL of the fleet harness). *)
+Lemma buffer_observers_src :
+  Buffer_can_put_observes = true /\ Buffer_can_get_observes = true /\ Buffer_occupancy_observes = true /\
+  Buffer_ready_items_observes = true /\ Buffer_items_observes = true /\
+  Buffer_update_final_buffer_avg_content_observes = true /\ Buffer_buffer_stats_collector_observes = true.
+Proof. repeat split; reflexivity. Qed.
+Lemma fleet_observers_src :
+  Fleet_can_put_observes = true /\ Fleet_can_get_observes = true /\ Fleet_get_occupancy_observes = true /\
+  Fleet_get_ready_items_observes = true /\ Fleet_get_items_observes = true /\
+  Fleet_update_final_fleet_avg_content_observes = true /\ Fleet_fleet_stats_collector_observes = true.
+Proof. repeat split; reflexivity. Qed.
